@@ -228,7 +228,7 @@ func (c *Client) Ping(ctx context.Context) error {
 }
 
 func sleepCtx(ctx context.Context, d time.Duration) error {
-	t := time.NewTimer(d)
+	t := time.NewTimer(d + simrt.Skew())
 	defer t.Stop()
 	select {
 	case <-t.C:
